@@ -14,6 +14,18 @@ func histSuite(name, monitor, rule string, quick, thorough, nops int, want map[s
 }
 
 func init() {
+	histSuite("c03", "mon_C03", "interleaved authorizations for several clients/users, redemptions by the right or another client with right/wrong/absent redirect_uri and code_verifier (both methods), ticks across the 60 s code lifetime, replays, then uses of the resulting tokens",
+		120, 4000, 34, map[string]bool{"pkce": true, "refresh": true},
+		map[string]int{"authorize": 20, "callback": 8, "par": 3, "code": 26, "refresh": 8, "cc": 1, "query": 18, "tick": 8, "bc": 1, "poll": 1, "notify": 1}, 35)
+	histSuite("c10", "mon_C10", "refresh chains of 1-30 refreshes with requested sub/supersets, by the owning or another client, ticks up to and beyond the grant lifetime, rotation on and off, grants from authorization_code and CIBA; introspection of refresh tokens",
+		100, 4000, 40, map[string]bool{"refresh": true, "ciba": true},
+		map[string]int{"authorize": 10, "callback": 4, "par": 1, "code": 12, "refresh": 34, "cc": 1, "query": 16, "tick": 9, "bc": 5, "poll": 7, "notify": 1}, 30)
+	histSuite("c16", "mon_C16", "CIBA histories over poll/ping/push clients with user code, scripted embedder decisions (pending, slow down, approve, deny, error), polls by the initiating or another client, ticks across the request lifetime, success/failure notifications through the provider API",
+		120, 4000, 34, map[string]bool{"ciba": true, "refresh": true},
+		map[string]int{"authorize": 2, "callback": 1, "par": 1, "code": 2, "refresh": 5, "cc": 1, "query": 10, "tick": 9, "bc": 24, "poll": 30, "notify": 14}, 30)
+	histSuite("c17", "mon_C17", "interleavings of several users' and clients' interactive flows with multi-step policies (succeed, fail, abandoned), ticks across the session timeout, stale/foreign/unknown callback ids, flows started from pushed requests",
+		120, 4000, 36, map[string]bool{"par": true},
+		map[string]int{"authorize": 26, "callback": 30, "par": 10, "code": 8, "refresh": 2, "cc": 1, "query": 8, "tick": 9, "bc": 1, "poll": 1, "notify": 1}, 30)
 	histSuite("c04flow", "mon_C04", "histories over all grant types with requested scope sub/supersets, refresh chains, introspection and userinfo of every token",
 		80, 3000, 36, map[string]bool{"refresh": true, "implicit": true},
 		map[string]int{"authorize": 14, "callback": 6, "par": 3, "code": 16, "refresh": 18, "cc": 8, "query": 20, "tick": 3, "bc": 4, "poll": 6, "notify": 2}, 30)
